@@ -4,6 +4,8 @@ CONSTANTS
   TreeSel = "quick"
   Part = 0
   NParts = 1
+  Sub = 0
+  NSub = 1
   MaxOps = 3
   MaxHeap = 6
   MaxNss = 2
